@@ -1,8 +1,10 @@
 (** * C06/C16 runner: Transform model on primitive floats against the f64 build.
     Constructors pass through libm: compared at 1e-12; everything else bit for bit. *)
-From G3 Require Import Run.Harness Model.Vec Model.BBox Model.Transform Model.Hit.
+From G3 Require Import Run.Harness Model.NumF32 Model.Vec Model.BBox Model.Transform Model.Hit.
 
 Definition K := float.
+Section WithInstance.
+Context {NK : Num float} (tol : float).
 Definition fl (l : list spec_float) (i : nat) : K := SF2Prim (nthsf l i).
 Definition m4_of (l : list spec_float) (o : nat) : M4 K :=
   mkM4 (fl l (o+0)) (fl l (o+1)) (fl l (o+2)) (fl l (o+3)) (fl l (o+4)) (fl l (o+5)) (fl l (o+6)) (fl l (o+7))
@@ -17,7 +19,7 @@ Definition exact_eq (a : list K) (b : list spec_float) : bool := sfl_eqb (map Pr
 Fixpoint close_eq (a : list K) (b : list spec_float) : bool :=
   match a, b with
   | [], [] => true
-  | x :: a, y :: b => fclose 0x1p-40 x (SF2Prim y) && close_eq a b
+  | x :: a, y :: b => fclose tol x (SF2Prim y) && close_eq a b
   | _, _ => false
   end.
 Definition ray_out (x : Ray K * V3 K * V3 K) : list K :=
@@ -63,6 +65,12 @@ Definition chk (c : N * list spec_float * N * list spec_float * list spec_float)
   | _ => if exact_eq (apply_op (tr_of a) op b) e then (20 + op) else 0
   end%N.
 
+End WithInstance.
+
 Module C06.
-  Definition run := run_cases chk.
+  Definition run := run_cases (@chk NumF 0x1p-40).
 End C06.
+(** the f32 build: the same model text on the binary32 instance (libm in single precision: 2^-20) *)
+Module C06f32.
+  Definition run := run_cases (@chk NumF32 0x1p-20).
+End C06f32.
